@@ -219,8 +219,35 @@ type calleeDesc struct {
 }
 
 // staticCallee resolves a call to a candidate function (plain function or method called on a value).
+// unIndex: f[T] / f[T, U] with f a generic function → f.
+func unIndex(pkg *packages.Package, e ast.Expr) ast.Expr {
+	e = ast.Unparen(e)
+	var x ast.Expr
+	switch ix := e.(type) {
+	case *ast.IndexExpr:
+		x = ix.X
+	case *ast.IndexListExpr:
+		x = ix.X
+	default:
+		return e
+	}
+	var id *ast.Ident
+	switch y := ast.Unparen(x).(type) {
+	case *ast.Ident:
+		id = y
+	case *ast.SelectorExpr:
+		id = y.Sel
+	}
+	if id != nil {
+		if _, isF := pkg.TypesInfo.Uses[id].(*types.Func); isF {
+			return ast.Unparen(x)
+		}
+	}
+	return e
+}
+
 func (N *normaliser) staticCallee(pkg *packages.Package, call *ast.CallExpr) (*types.Func, ast.Expr) {
-	switch f := ast.Unparen(call.Fun).(type) {
+	switch f := unIndex(pkg, call.Fun).(type) {
 	case *ast.Ident:
 		if o, ok := pkg.TypesInfo.Uses[f].(*types.Func); ok {
 			return o, nil
@@ -697,7 +724,7 @@ func (N *normaliser) descOf(pkg *packages.Package, call *ast.CallExpr) (*calleeD
 			if d.reason == "type parameters" {
 				// a generic function called with inferred type arguments: expanded with the arguments of this instance
 				var id *ast.Ident
-				switch f := call.Fun.(type) {
+				switch f := unIndex(pkg, call.Fun).(type) {
 				case *ast.Ident:
 					id = f
 				case *ast.SelectorExpr:
@@ -789,6 +816,10 @@ func (N *normaliser) firstEligibleCall(pkg *packages.Package, s ast.Stmt) (*ast.
 			roots = append(roots, a)
 		}
 	case *ast.DeferStmt:
+		// `defer n.lock()()`: the inner call runs at the defer statement, like the arguments
+		if inner, isCall := ast.Unparen(x.Call.Fun).(*ast.CallExpr); isCall {
+			roots = append(roots, inner)
+		}
 		for _, a := range x.Call.Args {
 			roots = append(roots, a)
 		}
@@ -1066,13 +1097,61 @@ func (N *normaliser) unrollTable(p *packages.Package, file *ast.File, fd *ast.Fu
 	vobj := p.TypesInfo.Defs[vid]
 	var lit *ast.CompositeLit
 	var def *ast.AssignStmt
+	bound := false
 	switch x := ast.Unparen(rs.X).(type) {
 	case *ast.CompositeLit:
 		lit = x
 	case *ast.Ident:
 		// a local defined by the statement right before the loop and used nowhere else
 		tv, _ := p.TypesInfo.Uses[x].(*types.Var)
-		if tv == nil || i == 0 {
+		if tv == nil {
+			return false
+		}
+		// … or the parameter of an expanded helper that is bound to a literal table (`__pN_steps := []step{…}`), used
+		// by this loop only (besides its `_ = p` marker): the table is read here and emptied where it was bound
+		if strings.HasPrefix(x.Name, "__p") && fd != nil {
+			var bindLit *ast.CompositeLit
+			nDef := 0
+			ast.Inspect(fd.Body, func(n ast.Node) bool {
+				as, ok := n.(*ast.AssignStmt)
+				if !ok || len(as.Lhs) != len(as.Rhs) {
+					return true
+				}
+				for k, l := range as.Lhs {
+					if id := identOf(l); id != nil && p.TypesInfo.ObjectOf(id) == types.Object(tv) {
+						nDef++
+						if cl, isCL := ast.Unparen(as.Rhs[k]).(*ast.CompositeLit); isCL && as.Tok == token.DEFINE {
+							bindLit = cl
+						}
+					}
+				}
+				return true
+			})
+			realUses := 0
+			ast.Inspect(fd.Body, func(n ast.Node) bool {
+				if as, ok := n.(*ast.AssignStmt); ok && as.Tok == token.ASSIGN {
+					allBlank := true
+					for _, l := range as.Lhs {
+						if id := identOf(l); id == nil || id.Name != "_" {
+							allBlank = false
+						}
+					}
+					if allBlank {
+						return false // marker
+					}
+				}
+				if id, ok := n.(*ast.Ident); ok && p.TypesInfo.Uses[id] == types.Object(tv) {
+					realUses++
+				}
+				return true
+			})
+			if bindLit == nil || nDef != 1 || realUses != 1 {
+				return false
+			}
+			lit, bound = bindLit, true
+			break
+		}
+		if i == 0 {
 			return false
 		}
 		as, isAs := list[i-1].(*ast.AssignStmt)
@@ -1124,7 +1203,10 @@ func (N *normaliser) unrollTable(p *packages.Package, file *ast.File, fd *ast.Fu
 			okBody = false
 		case *ast.BranchStmt:
 			if x.Tok == token.GOTO || x.Tok == token.BREAK || x.Tok == token.CONTINUE {
-				okBody = false
+				// (a break to the end label of an expansion around the loop leaves the loop like a return does)
+				if !(x.Tok == token.BREAK && x.Label != nil && strings.HasPrefix(x.Label.Name, "__L")) {
+					okBody = false
+				}
 			}
 		case *ast.SelectorExpr:
 			if id, isID := x.X.(*ast.Ident); isID && p.TypesInfo.Uses[id] == vobj {
@@ -1226,6 +1308,10 @@ func (N *normaliser) unrollTable(p *packages.Package, file *ast.File, fd *ast.Fu
 		start = off(def.Pos())
 	}
 	N.edits[fn] = append(N.edits[fn], textEdit{start, off(rs.End()) - start, sb.String()})
+	if bound {
+		// the table itself is no longer read: its literals must not be analysed a second time
+		N.edits[fn] = append(N.edits[fn], textEdit{off(lit.Pos()), off(lit.End()) - off(lit.Pos()), "(" + N.typeText(p, file, p.TypesInfo.TypeOf(lit)) + ")(nil)"})
+	}
 	N.info.Inlined = append(N.info.Inlined, "table loop written out at "+N.fset.Position(rs.Pos()).String())
 	return true
 }
@@ -1880,7 +1966,11 @@ func (N *normaliser) identEdit(pkg *packages.Package, file *ast.File, d *calleeD
 		if tp, ok := tn.Type().(*types.TypeParam); ok {
 			if ta := d.targs[tp]; ta != nil {
 				p := N.fset.Position(idn.Pos()).Offset
-				*edits = append(*edits, textEdit{p, len(idn.Name), N.typeText(pkg, file, ta)})
+				tt := N.typeText(pkg, file, ta)
+				if strings.HasPrefix(tt, "*") || strings.HasPrefix(tt, "func") || strings.HasPrefix(tt, "<-") || strings.HasPrefix(tt, "chan") {
+					tt = "(" + tt + ")" // `P(&v)` with P = *T is `(*T)(&v)`
+				}
+				*edits = append(*edits, textEdit{p, len(idn.Name), tt})
 				return
 			}
 		}
@@ -2101,6 +2191,10 @@ func normalise(repo string, vocab map[string]bool, decls *refDecls) (*normInfo, 
 	innermostFirst := true
 	for round := 1; round <= 10; round++ {
 		pkgs, err = loadSyntax(tmp)
+		if err != nil && fixUnusedImports(tmp, err.Error()) {
+			// (an import added for a type that the expansion then did not have to spell)
+			pkgs, err = loadSyntax(tmp)
+		}
 		if err != nil {
 			return info, fmt.Errorf("normalised copy does not type-check after round %d: %v", round-1, err)
 		}
@@ -2324,6 +2418,7 @@ func normalise(repo string, vocab map[string]bool, decls *refDecls) (*normInfo, 
 				})
 			}
 		}
+		N.funcGlobalsToFuncs(pkgs)
 		N.substituteFuncGlobals(pkgs)
 		N.local = localClosures(pkgs)
 		N.resultLit = resultClosures(pkgs)
@@ -2403,7 +2498,7 @@ func normalise(repo string, vocab map[string]bool, decls *refDecls) (*normInfo, 
 							} else if len(fd.Body.List) > 0 && s == fd.Body.List[len(fd.Body.List)-1] && (fd.Type.Results == nil || len(fd.Type.Results.List) == 0) {
 								N.lastOfBody = true
 							}
-							if N.splitIfInit(p, s) || N.switchToIf(p, s) || N.unrollTable(p, f, fd, list, i) || N.unrollFuncList(p, f, fd, list, i) || N.unrollArrayRange(p, f, fd, list, i) || N.expandRangeFunc(p, f, fd, s) || N.wrapGoCall(p, f, fd, s) || N.wrapMethodValue(p, f, fd, s) {
+							if N.splitIfInit(p, s) || N.switchToIf(p, s) || N.unrollTable(p, f, fd, list, i) || N.unrollFuncList(p, f, fd, list, i) || N.unrollArrayRange(p, f, fd, list, i) || N.expandRangeFunc(p, f, fd, s) || N.wrapGoCall(p, f, fd, s) || N.afterFuncAsGo(p, f, fd, s) || N.wrapMethodValue(p, f, fd, s) {
 								continue
 							}
 							if call, dd, recv := N.firstEligibleCall(p, s); call != nil {
@@ -2638,6 +2733,23 @@ func implementsSomething(pkgs []*packages.Package, f *types.Func) bool {
 // fixUnusedImports turns `"x" imported and not used` errors into blank imports in the copy.
 func fixUnusedImports(dir, errText string) bool {
 	fixed := false
+	// `"path" imported as alias and not used`: an import an expansion added for a type it then did not spell
+	for _, m := range regexp.MustCompile(`([^\s:;]+\.go):\d+:\d+: \\?"([^"\\]+)\\?" imported as (\w+) and not used`).FindAllStringSubmatch(errText, -1) {
+		file, path, alias := m[1], m[2], m[3]
+		if !filepath.IsAbs(file) {
+			file = filepath.Join(dir, file)
+		}
+		src, err := os.ReadFile(file)
+		if err != nil {
+			continue
+		}
+		old := "import " + alias + " \"" + path + "\""
+		if strings.Contains(string(src), old) {
+			if os.WriteFile(file, []byte(strings.Replace(string(src), old, "import _ \""+path+"\"", 1)), 0644) == nil {
+				fixed = true
+			}
+		}
+	}
 	for _, part := range strings.Split(errText, "; ") {
 		i := strings.Index(part, " imported and not used")
 		if i < 0 {
@@ -2787,6 +2899,7 @@ func (N *normaliser) expandRangeFunc(p *packages.Package, file *ast.File, fd *as
 	off := func(pos token.Pos) int { return N.fset.Position(pos).Offset }
 	N.seq++
 	id := N.seq
+	var bodyLabels []string
 	var scan func(n ast.Node, inLoop, inSwitch bool)
 	scan = func(n ast.Node, inLoop, inSwitch bool) {
 		ast.Inspect(n, func(m ast.Node) bool {
@@ -2797,7 +2910,11 @@ func (N *normaliser) expandRangeFunc(p *packages.Package, file *ast.File, fd *as
 			case *ast.FuncLit:
 				return false
 			case *ast.LabeledStmt:
-				okBody = false
+				// (the labels of expansions inside the body get a name of their own in every copy)
+				if !strings.HasPrefix(x.Label.Name, "__L") {
+					okBody = false
+				}
+				bodyLabels = append(bodyLabels, x.Label.Name)
 			case *ast.ForStmt:
 				scan(x.Body, true, inSwitch)
 				return false
@@ -2922,8 +3039,14 @@ func (N *normaliser) expandRangeFunc(p *packages.Package, file *ast.File, fd *as
 						marks = append(marks, vt)
 					}
 				}
-				for _, a := range sites[i].args {
-					vals = append(vals, N.rewriteExpr(p, file, d, rename, a, rs.Pos(), &capture))
+				ysig, _ := yieldObj.Type().Underlying().(*types.Signature)
+				for j, a := range sites[i].args {
+					t := N.rewriteExpr(p, file, d, rename, a, rs.Pos(), &capture)
+					if ysig != nil && len(sites[i].args) == ysig.Params().Len() {
+						// (typed: `yield(f, nil)` binds the error variable to a nil of its type)
+						t = "(" + N.typeText(p, file, ysig.Params().At(j).Type()) + ")(" + t + ")"
+					}
+					vals = append(vals, t)
 				}
 				if len(vals) == 1 && len(names) < 2 && sig.Results().Len() == 1 {
 					// one value per element, or a pair of which the loop takes the first
@@ -2952,6 +3075,9 @@ func (N *normaliser) expandRangeFunc(p *packages.Package, file *ast.File, fd *as
 					}
 				}
 				bt := strings.ReplaceAll(bodyText, fmt.Sprintf("__LC%d", id), fmt.Sprintf("__LC%d_%d", id, i))
+				for _, l := range bodyLabels {
+					bt = regexp.MustCompile(`\b`+regexp.QuoteMeta(l)+`\b`).ReplaceAllString(bt, fmt.Sprintf("%s_y%d_%d", l, id, i))
+				}
 				fmt.Fprintf(&sb, "\n__LC%d_%d: switch { default: %s; break __LC%d_%d }\n}", id, i, bt, id, i)
 				iedits = append(iedits, textEdit{off(x.Pos()), off(x.End()) - off(x.Pos()), sb.String()})
 				return false
@@ -2970,7 +3096,17 @@ func (N *normaliser) expandRangeFunc(p *packages.Package, file *ast.File, fd *as
 			})
 			return false
 		case *ast.LabeledStmt:
-			capture = "label in iterator"
+			// the labels of expansions inside the iterator get a name of their own in this copy
+			if !strings.HasPrefix(x.Label.Name, "__L") {
+				capture = "label in iterator"
+			} else {
+				iedits = append(iedits, textEdit{off(x.Label.End()), 0, fmt.Sprintf("_i%d", id)})
+			}
+		case *ast.BranchStmt:
+			if x.Label != nil && strings.HasPrefix(x.Label.Name, "__L") {
+				iedits = append(iedits, textEdit{off(x.Label.End()), 0, fmt.Sprintf("_i%d", id)})
+			}
+			return false
 		case *ast.Ident:
 			N.identEdit(p, file, d, rename, x, rs.Pos(), &iedits, &capture)
 		}
@@ -3625,4 +3761,179 @@ func (N *normaliser) unrollArrayRange(p *packages.Package, file *ast.File, fd *a
 	N.edits[fn] = append(N.edits[fn], textEdit{off(rs.Pos()), off(rs.End()) - off(rs.Pos()), sb.String()})
 	N.info.Inlined = append(N.info.Inlined, "array loop written out at "+N.fset.Position(rs.Pos()).String())
 	return true
+}
+
+// afterFuncAsGo: `time.AfterFunc(d, f)` whose timer is not kept is a goroutine that sleeps for d and then calls f —
+// the form the rules know. d and f must be simple operands (a method value of a plain variable, a function name, a
+// literal): evaluating them in the goroutine instead of before it makes no difference.
+func (N *normaliser) afterFuncAsGo(p *packages.Package, file *ast.File, fd *ast.FuncDecl, s ast.Stmt) bool {
+	es, ok := s.(*ast.ExprStmt)
+	if !ok {
+		return false
+	}
+	call, ok := ast.Unparen(es.X).(*ast.CallExpr)
+	if !ok || len(call.Args) != 2 {
+		return false
+	}
+	sel, ok := ast.Unparen(call.Fun).(*ast.SelectorExpr)
+	if !ok || sel.Sel.Name != "AfterFunc" {
+		return false
+	}
+	fobj, _ := p.TypesInfo.Uses[sel.Sel].(*types.Func)
+	if fobj == nil || fobj.Pkg() == nil || fobj.Pkg().Path() != "time" {
+		return false
+	}
+	f := ast.Unparen(call.Args[1])
+	if _, isLit := f.(*ast.FuncLit); !isLit && !simpleOperand(p, f) {
+		return false
+	}
+	if !simpleOperand(p, call.Args[0]) {
+		if tv, has := p.TypesInfo.Types[call.Args[0]]; !has || tv.Value == nil {
+			return false
+		}
+	}
+	fn := N.fset.Position(s.Pos()).Filename
+	so, eo := N.fset.Position(s.Pos()).Offset, N.fset.Position(s.End()).Offset
+	timePkg := N.text(sel.X)
+	t := "go func() { " + timePkg + ".Sleep(" + N.text(call.Args[0]) + "); (" + N.text(call.Args[1]) + ")() }()"
+	N.edits[fn] = append(N.edits[fn], textEdit{so, eo - so, t})
+	N.info.Inlined = append(N.info.Inlined, "time.AfterFunc written as a sleeping goroutine at "+N.fset.Position(s.Pos()).String())
+	return true
+}
+
+// funcGlobalsToFuncs: `var H = mk(consts…, function names…, literals…)` with mk a function outside the vocabulary that
+// returns a function, H never assigned or addressed: written `func H(a…) R { return mk(…)(a…) }`. Handing H around
+// as a value and calling it stay what they were (mk only wraps its arguments, so building the wrapper per call instead
+// of once is the same), and the rules find a function named H again.
+func (N *normaliser) funcGlobalsToFuncs(pkgs []*packages.Package) {
+	for _, p := range pkgs {
+		if !strings.HasPrefix(p.PkgPath, "github.com/jhalter/mobius") {
+			continue
+		}
+		type glob struct {
+			gd   *ast.GenDecl
+			vs   *ast.ValueSpec
+			file *ast.File
+			sig  *types.Signature
+		}
+		globals := map[*types.Var]glob{}
+		for _, f := range p.Syntax {
+			for _, dcl := range f.Decls {
+				gd, ok := dcl.(*ast.GenDecl)
+				if !ok || gd.Tok != token.VAR {
+					continue
+				}
+				for _, sp := range gd.Specs {
+					vs, ok := sp.(*ast.ValueSpec)
+					if !ok || len(vs.Names) != 1 || len(vs.Values) != 1 || vs.Names[0].Name == "_" {
+						continue
+					}
+					call, ok := ast.Unparen(vs.Values[0]).(*ast.CallExpr)
+					if !ok {
+						continue
+					}
+					o, _ := N.staticCallee(p, call)
+					if _, isCand := N.cands[o]; o == nil || !isCand {
+						continue
+					}
+					v, _ := p.TypesInfo.Defs[vs.Names[0]].(*types.Var)
+					if v == nil {
+						continue
+					}
+					sig, isSig := v.Type().Underlying().(*types.Signature)
+					if !isSig || sig.Variadic() {
+						continue
+					}
+					pure := true
+					for _, a := range call.Args {
+						switch x := ast.Unparen(a).(type) {
+						case *ast.BasicLit, *ast.FuncLit:
+						case *ast.Ident:
+							if _, isF := p.TypesInfo.Uses[x].(*types.Func); isF {
+								break
+							}
+							if tv, ok := p.TypesInfo.Types[x]; !ok || tv.Value == nil {
+								pure = false
+							}
+						default:
+							if tv, ok := p.TypesInfo.Types[x]; !ok || tv.Value == nil {
+								pure = false
+							}
+						}
+					}
+					if pure {
+						globals[v] = glob{gd, vs, f, sig}
+					}
+				}
+			}
+		}
+		if len(globals) == 0 {
+			continue
+		}
+		for _, q := range pkgs {
+			for _, f := range q.Syntax {
+				ast.Inspect(f, func(n ast.Node) bool {
+					switch x := n.(type) {
+					case *ast.AssignStmt:
+						for _, l := range x.Lhs {
+							if id := identOf(ast.Unparen(l)); id != nil {
+								if v, ok := q.TypesInfo.Uses[id].(*types.Var); ok {
+									delete(globals, v)
+								}
+							} else if se, isSel := ast.Unparen(l).(*ast.SelectorExpr); isSel {
+								if v, ok := q.TypesInfo.Uses[se.Sel].(*types.Var); ok {
+									delete(globals, v)
+								}
+							}
+						}
+					case *ast.UnaryExpr:
+						if x.Op == token.AND {
+							var id *ast.Ident
+							switch y := ast.Unparen(x.X).(type) {
+							case *ast.Ident:
+								id = y
+							case *ast.SelectorExpr:
+								id = y.Sel
+							}
+							if id != nil {
+								if v, ok := q.TypesInfo.Uses[id].(*types.Var); ok {
+									delete(globals, v)
+								}
+							}
+						}
+					}
+					return true
+				})
+			}
+		}
+		for v, g := range globals {
+			fn := N.fset.Position(g.vs.Pos()).Filename
+			var params, names []string
+			for i := 0; i < g.sig.Params().Len(); i++ {
+				nm := fmt.Sprintf("__a%d", i)
+				params = append(params, nm+" "+N.typeText(p, g.file, g.sig.Params().At(i).Type()))
+				names = append(names, nm)
+			}
+			res, ret := "", ""
+			switch g.sig.Results().Len() {
+			case 0:
+			case 1:
+				res, ret = " "+N.typeText(p, g.file, g.sig.Results().At(0).Type()), "return "
+			default:
+				var rs []string
+				for i := 0; i < g.sig.Results().Len(); i++ {
+					rs = append(rs, N.typeText(p, g.file, g.sig.Results().At(i).Type()))
+				}
+				res, ret = " ("+strings.Join(rs, ", ")+")", "return "
+			}
+			so, eo := N.fset.Position(g.vs.Pos()).Offset, N.fset.Position(g.vs.End()).Offset
+			if !g.gd.Lparen.IsValid() {
+				so, eo = N.fset.Position(g.gd.Pos()).Offset, N.fset.Position(g.gd.End()).Offset
+			}
+			N.edits[fn] = append(N.edits[fn], textEdit{so, eo - so, ""})
+			text := "\nfunc " + v.Name() + "(" + strings.Join(params, ", ") + ")" + res + " { " + ret + N.text(ast.Unparen(g.vs.Values[0])) + "(" + strings.Join(names, ", ") + ") }\n"
+			N.edits[fn] = append(N.edits[fn], textEdit{N.fset.Position(g.file.End()).Offset, 0, text})
+			N.info.Inlined = append(N.info.Inlined, "function-valued variable "+v.Name()+" written as a function")
+		}
+	}
 }
